@@ -112,3 +112,47 @@ def search(rep: C.Report, tier: str, broken):
                 rep.violation("wall pressure in a uniform plasma differs from V(phi_low) - V(phi_high) (beyond the spectrally "
                               "decreasing discretisation error)", dict(info, rel_errors_by_M={m: list(map(float, errs[m])) for m in Ms}),
                               finding_key=f"C09:pressure:{kind}" + ("" if not params_ else ":units"))
+    # ---- second clause: the field-dependent part of the potential does not depend on temperature (V = -a T^4 + V0(phi)): the pressure is
+    # V0(low) - V0(high) for ANY temperature profile through the wall, not only a uniform one
+    import WallGo
+    from WallGo.fields import Fields
+
+    class TIndep(WallGo.EffectivePotential):
+        fieldCount = 2
+        effectivePotentialError = 1e-12
+
+        def evaluate(self, fields, temperature):
+            f = Fields(fields)
+            h, s_ = f.getField(0), f.getField(1)
+            T = np.asarray(temperature)
+            return -3.0 * T ** 4 + 0.25 * 0.9 * (h ** 2 - 1.0) ** 2 + 0.5 * 0.7 * s_ ** 2 * (h ** 2 + 0.2) + 0.25 * 0.4 * s_ ** 4 - 0.08 * h ** 3 - 0.35 * s_ ** 2
+
+        def V0(self, h, s_):
+            return 0.25 * 0.9 * (h ** 2 - 1.0) ** 2 + 0.5 * 0.7 * s_ ** 2 * (h ** 2 + 0.2) + 0.25 * 0.4 * s_ ** 4 - 0.08 * h ** 3 - 0.35 * s_ ** 2
+    pot = TIndep()
+    pot.configureDerivatives(WallGo.VeffDerivativeSettings(temperatureVariationScale=0.1, fieldValueVariationScale=[1.0, 1.0]))
+    lowv, highv = Fields([1.05, 0.0]), Fields([0.0, 0.8])          # any two field-space points: the identity holds for every end points of the profile
+    want = float(pot.V0(1.05, 0.0) - pot.V0(0.0, 0.8))
+    o = EC.make_eom("toy2", M=Ms[-1])
+    eom, grid = o["eom"], o["grid"]
+    for rep_i in range(3 if tier == "quick" else 12):
+        W = np.array([r.uniform(3, 8), r.uniform(3, 8)])
+        off = np.array([0.0, r.uniform(-1.5, 1.5)])
+        wp = WallParams(widths=W.copy(), offsets=off.copy())
+        eom._updateGrid(wp, -0.4)
+        fields, dphi = eom.wallProfile(grid.xiValues, lowv, highv, wp)
+        z = np.asarray(grid.xiValues)
+        for tk, Tprof in (("uniform", np.full(grid.M - 1, 0.9)), ("tanh", 0.9 + 0.15 * np.tanh(z / 5.0)), ("wiggly", 0.9 + 0.1 * np.sin(z / 3.0) * np.exp(-(z / 20.0) ** 2))):
+            dV = pot.derivField(fields, Tprof)
+            dz, _, _ = grid.getCompactificationDerivatives()
+            p_ = float(Polynomial(np.sum(np.array(dV * dphi), axis=1), grid).integrate(weight=-dz))
+            rep.case(key=("T-independent-field-part", tk, rep_i))
+            rep.count(f"T-independent field part, {tk} temperature profile")
+            if not abs(p_ - want) <= 1e-5 * abs(want):
+                rep.violation("for a potential whose field-dependent part does not depend on temperature the wall pressure differs from V(low) - V(high) "
+                              "when the temperature varies through the wall",
+                              {"potential": "V = -3 T^4 + V0(h, s) (two fields, harness/props/C09.TIndep)", "temperature_profile": tk, "widths": W.tolist(),
+                               "offsets": off.tolist(), "pressure": p_, "V0(low)-V0(high)": want, "M": int(grid.M),
+                               "how": "EOM.wallProfile + EffectivePotential.derivField(fields, Tprofile) + Polynomial.integrate(weight=-dz)"},
+                              finding_key="C09:T-independent-field-part")
+                break
